@@ -21,7 +21,7 @@ RULE = (
 REQUIRED = ["graphcluster_runs", "batchcluster_runs", "incremental_runs", "order_permutations", "near_miss_pairs_present",
             "relabelled_copies_present", "pregroup_attribute_runs", "template_library_with_gaps_runs",
             "same_ids_near_miss_present", "reclustered_entries_runs", "lib_check_single_matcher_runs", "half_order_near_misses",
-            "inplace_edit_recluster_runs", "template_library_not_in_class_order_runs"]
+            "inplace_edit_recluster_runs", "template_library_not_in_class_order_runs", "bridged_ring_multisets"]
 ASSUMPTIONS = [
     "isomorphism on element (default '*'), charge (default 0), bond order (default 1) — the clusterers' defaults",
     "the pre-grouping attribute supplied by the harness is isomorphism-invariant (sorted element string)",
@@ -283,7 +283,39 @@ def check_multiset(ctx, graphs, tag):
              if (ctx.evaluations < 1 or rng.random() < 0.02) else None)
 
 
+def bridged_ring_graphs(rng):
+    """bicyclic centres: two bridgeheads joined by three bridges of a, b, c bonds (rings of sizes a+b, a+c, b+c), and
+    fused ring pairs sharing one bond; random element on one atom so that near misses and copies are distinguishable."""
+    out = []
+    for a, b, c in ((1, 2, 2), (2, 2, 3), (2, 2, 2), (1, 2, 3), (2, 3, 3), (1, 3, 3), (2, 2, 4)):
+        G = nx.Graph()
+        nid = [2]
+        G.add_node(1); G.add_node(2)
+        for L in (a, b, c):
+            prev = 1
+            for _ in range(L - 1):
+                nid[0] += 1
+                G.add_edge(prev, nid[0]); prev = nid[0]
+            G.add_edge(prev, 2)
+        for n in G.nodes:
+            G.nodes[n].update(element="C", charge=0, hcount=0, aromatic=False, atom_map=n, neighbors=[])
+        for u, v in G.edges:
+            G[u][v].update(order=1.0, standard_order=0.0)
+        if rng.random() < 0.6:
+            G.nodes[rng.choice(list(G.nodes))]["element"] = rng.choice(["N", "O"])
+        out.append(G)
+    return out
+
+
 def run(ctx):
+    for t in range(2 if ctx.quick else 20):
+        base = bridged_ring_graphs(ctx.rng)
+        graphs = []
+        for g in base:
+            graphs += [g] + [WG.scramble(g, ctx.rng)[0] for _ in range(3)] + [near_miss(ctx.rng, g, keep_ids=True)]
+        ctx.rng.shuffle(graphs)
+        ctx.count("bridged_ring_multisets")
+        check_multiset(ctx, graphs, "bridged and fused ring systems with relabelled / re-inserted copies")
     n = 25 if ctx.quick else 400
     for t in range(n):
         if ctx.out_of_time():
